@@ -52,7 +52,7 @@ pub fn make_variant(base: &History, choices: &[u8]) -> Variant {
         if let Step::Backward { h, .. } = s {
             roots.push(*h);
         }
-        if matches!(s, Step::Leaf { .. } | Step::Apply(_)) {
+        if matches!(s, Step::Leaf { .. } | Step::Apply(_) | Step::Clone { .. }) {
             last_use.push(i);
             uses.push(0);
             nh += 1;
@@ -124,6 +124,13 @@ pub fn make_variant(base: &History, choices: &[u8]) -> Variant {
                     nslots += 1;
                     n_rewrites += 1;
                 }
+                cur += 1;
+            }
+            // a clone that is part of the base program itself
+            Step::Clone { h } => {
+                out.push(Step::Clone { h: map[*h] });
+                map[cur] = nslots;
+                nslots += 1;
                 cur += 1;
             }
             Step::Flag { h, how } => out.push(Step::Flag { h: map[*h], how: *how }),
@@ -246,7 +253,7 @@ impl CaseKind for Case12 {
 pub fn base_cfg(exact: bool, t: Tier) -> GenCfg {
     use Kind::*;
     let mut cfg = GenCfg::programs(exact);
-    cfg.kinds = vec![(Binary, 30), (Unary, 16), (Leaf, 8), (SumReshape, 8), (Matmul, 7), (Custom, 6), (Flag, 10), (Backward, 7), (Conv, 3)];
+    cfg.kinds = vec![(Binary, 30), (Unary, 16), (Leaf, 8), (SumReshape, 8), (Matmul, 7), (Custom, 6), (Flag, 10), (Backward, 7), (Conv, 3), (Retrack, 4)];
     cfg.flag_results = true;
     cfg.max_steps = t.pick(14, 36);
     cfg.max_elems = t.pick(48, 200);
